@@ -122,7 +122,7 @@ def spec_ok(spec):
         if len(cyc) < 3:
             return False
         for a, b in zip(cyc, cyc[1:] + cyc[:1]):
-            if np.hypot(*(vv[a] - vv[b])) < 0.12:
+            if np.hypot(*(vv[a] - vv[b])) < spec.get("min_ridge", 0.12):
                 return False
     return _connected(keep, cellv)
 
@@ -306,7 +306,7 @@ def build_tissue(spec, frame=0):
     return Tissue(verts, cells, edges, gt, pressure, meta)
 
 
-def random_spec(rng, *, max_side=6, kmax=40, for_solver=False, frames=1):
+def random_spec(rng, *, max_side=6, kmax=40, for_solver=False, frames=1, min_ridge=None):
     """Draw a spec in generic position (retries are deterministic in rng)."""
     for _ in range(200):
         nx = rng.randint(2, max_side)
@@ -315,6 +315,8 @@ def random_spec(rng, *, max_side=6, kmax=40, for_solver=False, frames=1):
             continue
         spec = {"kind": "voronoi", "nx": nx, "ny": ny, "sseed": rng.randrange(10 ** 9),
                 "jitter": round(rng.uniform(0.05, 0.3), 3), "hex": rng.random() < 0.7}
+        if min_ridge is not None:
+            spec["min_ridge"] = min_ridge
         n = nx * ny
         # sub-tissue mask
         mode = rng.choice(["full", "full", "grow", "grow", "holes", "bridge"]) if not for_solver else \
